@@ -84,6 +84,7 @@ type State struct {
 	dead   bool
 	trace  []string
 	subst  map[int]*Term
+	lastNow *Term
 	mvars  []*Term
 	model  *Model
 	memo   map[int]*Term
@@ -168,6 +169,7 @@ func (s *State) clone(e *Engine) *State {
 			n.subst[k] = v
 		}
 	}
+	n.lastNow = s.lastNow
 	n.nd = s.nd[:len(s.nd):len(s.nd)]
 	n.mvars = s.mvars[:len(s.mvars):len(s.mvars)]
 	n.model = s.model
